@@ -5,7 +5,7 @@ name, prop, wt = sys.argv[1:4]
 needs = ' '.join(sys.argv[4:])
 d = '/verif/seeded/' + name
 os.makedirs(d, exist_ok=True)
-for f in ('patch.diff', 'patch_adapted_to_current_hooks.diff', 'demo.c', 'run_demo.sh', 'NOTES.md', 'demo.cc', 'demo.sh'):
+for f in ('patch.diff', 'patch_adapted_to_current_hooks.diff', 'patch_adapted_call_only.diff', 'demo.c', 'run_demo.sh', 'NOTES.md', 'demo.cc', 'demo.sh'):
     p = os.path.join(wt, 'seeded', f)
     if os.path.exists(p):
         shutil.copy(p, d)
